@@ -28,7 +28,7 @@ pub fn gen_case(rc: &RunCtx, blob_heavy: bool, nasty: bool) -> WriterCase {
     };
     let prog = gen_program(rc.run_seed, &cfg);
     let (wchunk, rchunk, sink) = draw_chunks(rc.run_seed);
-    WriterCase { prog, wchunk, rchunk, sink }
+    WriterCase { prog, wchunk, rchunk, sink, legacy_blob_headers: false }
 }
 
 pub fn run_points(case: &WriterCase, st: &mut RunStats, check_blobs: bool, check_points: bool) -> Outcome<WriterCase> {
@@ -43,7 +43,20 @@ pub fn run_points(case: &WriterCase, st: &mut RunStats, check_blobs: bool, check
     if w.exec.dirty_after_finalize || w.disk.dirty() {
         return Outcome::fail("not-flushed", "finalize returned Ok but the device has unflushed writes".to_string());
     }
-    let rb = match read_back(&w.image, &w.ctx, &case.rchunk, &case.sink, &w.exec.blob_descs) {
+    let legacy_image;
+    let image_to_read: &[u8] = if case.legacy_blob_headers {
+        match to_legacy_blob_headers(&w.image, &w.exec.blob_descs) {
+            Some(i) => {
+                st.probe("legacy_blob_section_length_convention", true);
+                legacy_image = i;
+                &legacy_image
+            }
+            None => &w.image,
+        }
+    } else {
+        &w.image
+    };
+    let rb = match read_back(image_to_read, &w.ctx, &case.rchunk, &case.sink, &w.exec.blob_descs) {
         Ok(rb) => rb,
         Err(e) => return Outcome::fail("reopen-failed", format!("finalized file does not open: {e}")),
     };
